@@ -51,3 +51,47 @@ def declare(reg):
 
     reg.properties.setdefault("C08", {}).setdefault("bounded", []).append(
         {"name": "parser-totality-fuzz", "module": "harness.parser", "func": "Totality"})
+
+    # ---- _p_string (C08): quoted-string escapes are decoded; literals are taken by octet count -----------------------------
+    QRE = r'''r'"([^\r\n\\"]|\\["\\])*"' '''.strip()
+    reg.specfn("unescaped", "s: str", "str", doc=r's with every \" replaced by " and every \\ by \ (re.sub; bounded tier harness.parser:QuotedStrings)')
+    reg.specfn("quoted_prefix", "inp: str", "str", doc="the quoted string the input starts with (what _quoted_re matches at position 0)")
+    reg.specfn("lit_digits", "inp: str", "str", doc="the digits of the literal prefix '{<digits>[+]}CRLF' the input starts with")
+    reg.opaque_names["_quoted_re"] = "opaque:Pattern"
+    reg.opaque_names["_lit_ref_re"] = "opaque:Pattern"
+    reg.opaque_names["_quoted_special_re"] = "opaque:Pattern"
+    reg.dynamic_dispatch[r"self\._p_re\(_quoted_re\)"] = "IMAPClientCommand.p_re_quoted"
+    reg.contract(P, "IMAPClientCommand.p_re_quoted", params={"self": "ref:IMAPClientCommand", "regexp": "opaque:Pattern"}, ret="str",
+                 raises={"NoMatch": None}, exc_ensures={"untouched": "self.input == old(self.input)"},
+                 ensures={"matched": f"matches(result, {QRE})", "consumed": "old(self.input) == result + self.input", "is": "result == quoted_prefix(old(self.input))"},
+                 modifies=["self.input"], **T,
+                 note="parser primitive on _quoted_re: the prefix of the input that is a quoted string is consumed and returned; NoMatch when there is none")
+    reg.dynamic_dispatch[r"self\._p_re\(_lit_ref_re, group=1\)"] = "IMAPClientCommand.p_re_litref"
+    reg.contract(P, "IMAPClientCommand.p_re_litref", params={"self": "ref:IMAPClientCommand", "regexp": "opaque:Pattern", "group": "int"}, ret="str",
+                 raises={"NoMatch": None}, exc_ensures={"untouched": "self.input == old(self.input)"},
+                 ensures={"digits": "is_numeral(result)", "is": "result == lit_digits(old(self.input))",
+                          "consumed": r"old(self.input) == '{' + result + '}\r\n' + self.input or old(self.input) == '{' + result + '+}\r\n' + self.input"},
+                 modifies=["self.input"], **T,
+                 note="parser primitive on _lit_ref_re: consumes '{<digits>[+]}CRLF' and returns the digits")
+    reg.dynamic_dispatch[r"_quoted_special_re\.sub\('\\\\1', .*\)"] = "re.unescape_quoted"
+    reg.contract("<re>", "re.unescape_quoted", params={"self": "ref:IMAPClientCommand", "repl": "str", "s": "str"}, ret="str",
+                 ensures={"is": "result == unescaped(s)"}, **T, note=r'A-RE: re.sub of \\(["\\]) by its group 1 (bounded tier harness.parser:QuotedStrings)')
+    OLD = "old(self.input)"
+    reg.contract(
+        P, "IMAPClientCommand._p_string", params={"self": "ref:IMAPClientCommand"}, ret="str",
+        ensures={
+            # a quoted string means its text with the escapes decoded, and exactly the quoted string is consumed
+            "quoted-decoded": f"""implies({OLD}.startswith('"'), {OLD} == quoted_prefix({OLD}) + self.input and result == unescaped(quoted_prefix({OLD})[1:len(quoted_prefix({OLD})) - 1]))""",
+            # a literal is taken by count: exactly the announced number of characters after the '{n}CRLF' prefix, whatever they are
+            "literal-by-count": f"""implies(not {OLD}.startswith('"'), len(result) == int(lit_digits({OLD})) and """
+                                f"""({OLD} == '{{' + lit_digits({OLD}) + '}}\\r\\n' + result + self.input or {OLD} == '{{' + lit_digits({OLD}) + '+}}\\r\\n' + result + self.input))""",
+        },
+        raises={"NoMatch": None, "BadLiteral": None},
+        modifies=["self.input"],
+        props=["C08"],
+        ghost={"harness": "harness.parser:QuotedStrings"},
+    )
+    reg.properties.setdefault("C08", {}).setdefault("bounded", []).append(
+        {"name": "quoted-strings-decoded", "module": "harness.parser", "func": "QuotedStrings"})
+    reg.properties.setdefault("C08", {}).setdefault("bounded", []).append(
+        {"name": "fetch-attributes-decoded", "module": "harness.parser", "func": "FetchAtts"})
